@@ -114,12 +114,21 @@ void _cds_lfq_init_rcu(struct cds_lfq_queue_rcu *q,
 static inline
 int _cds_lfq_destroy_rcu(struct cds_lfq_queue_rcu *q)
 {
-	struct cds_lfq_node_rcu *head;
+	struct cds_lfq_node_rcu *head, *node, *next;
 
 	head = rcu_dereference(q->head);
-	if (!(head->dummy && head->next == NULL))
-		return -EPERM;	/* not empty */
-	free_dummy(head);
+	/*
+	 * Concurrent dequeuers can leave more than one dummy node behind:
+	 * the queue is empty when it only contains dummy nodes.
+	 */
+	for (node = head; node != NULL; node = node->next) {
+		if (!node->dummy)
+			return -EPERM;	/* not empty */
+	}
+	for (node = head; node != NULL; node = next) {
+		next = node->next;
+		free_dummy(node);
+	}
 	return 0;
 }
 
